@@ -65,7 +65,10 @@ def _cases(draw, nmax):
         geom = {"pos": pos,
                 "epsr": draw(st.sampled_from([1.0, 1.5, 2.0, 3.0])),
                 "u_read": draw(st.sampled_from(UNITS)),
-                "route": draw(st.sampled_from(["set", "calculate"]))}
+                "route": draw(st.sampled_from(["set", "calculate"])),
+                # two transitions located at the same place (e.g. two transitions of one pigment): no point-dipole
+                # coupling between them
+                "coincident": draw(st.sampled_from([False, False, True])) if n >= 3 else False}
     # what the built aggregate is used for before its operators are read (the built operators must stay the site-basis
     # Frenkel ones whatever else is done with the aggregate)
     uses = draw(st.lists(st.sampled_from(["diagonalize", "read-in-eigenbasis", "read", "ham-there-and-back-in-units"]), max_size=2))
@@ -193,14 +196,40 @@ def check_case(case, ctx):
 
     # ---- the electronic Hamiltonian (for purely electronic aggregates documented to equal the Hamiltonian) --------
     def electronic():
+        # asked for while the units of the case are current, read in internal units
+        with qr.energy_units(case["u_in"]):
+            he = agg.get_electronic_Hamiltonian()
         with qr.energy_units("int"):
-            return numpy.array(agg.get_electronic_Hamiltonian().data, dtype=float)
+            return numpy.array(he.data, dtype=float)
     ok, He = guarded(ctx, "electronic-hamiltonian", electronic)
     if ok:
         if He.shape != Href.shape:
             ctx.fail("electronic-hamiltonian/shape", got=list(He.shape), want=list(Href.shape))
         else:
             ctx.close("electronic-hamiltonian/elements", He, Href, rtol=1e-10, scale=escale, mult=mult)
+
+    # ---- transitions between states, named by index and by state object --------------------------------------
+    def transitions():
+        out = []
+        pairs = [(a, b) for a in range(len(sigs)) for b in range(len(sigs)) if a != b][:12]
+        with qr.energy_units(case["u_in"]):
+            for a, b in pairs:
+                e1, d1 = agg.get_transition(a, b)
+                va, vb = agg.get_VibronicState(sigs[a], ()), agg.get_VibronicState(sigs[b], ())
+                e2, d2 = agg.get_transition(va, vb)
+                out.append((a, b, float(e1), numpy.array(d1, dtype=float), float(e2), numpy.array(d2, dtype=float)))
+        return out
+    # (after Aggregate.diagonalize() the aggregate's transitions are those between exciton states: not compared here)
+    ok, trs = (False, None) if "diagonalize" in case.get("uses", []) else guarded(ctx, "transitions", transitions)
+    if ok:
+        for a, b, e1, d1, e2, d2 in trs:
+            want_e = float(orc.from_internal(Href[a, a] - Href[b, b], case["u_in"]))
+            sc_e = float(orc.from_internal(escale, case["u_in"]))
+            if not (ctx.close("transition/energy", e1, want_e, rtol=1e-7, scale=sc_e, where="by-index")
+                    and ctx.close("transition/energy", e2, want_e, rtol=1e-7, scale=sc_e, where="by-state-object")
+                    and ctx.close("transition/dipole", d1, Dref[a, b, :], rtol=1e-12, scale=3.0, where="by-index")
+                    and ctx.close("transition/dipole", d2, Dref[a, b, :], rtol=1e-12, scale=3.0, where="by-state-object")):
+                break
 
     # ---- units used for input / at build time -------------------------------------
     u_in, u_b = case["u_in"], case["u_build"]
@@ -264,6 +293,10 @@ def check_case(case, ctx):
 
     # ---- point-dipole couplings -----------------------------------------------------
     g = case["geom"]
+    if g and g.get("coincident"):
+        g = dict(g, pos=[list(p) for p in g["pos"]])
+        g["pos"][2] = list(g["pos"][1])
+        ctx.label("geometry:two-molecules-at-one-place")
     if g:
         def build_geom():
             a = build_aggregate(qr, E, [[0] * n for _ in range(n)], d, 1, "1/cm", "1/cm", pos=g["pos"])
@@ -280,7 +313,7 @@ def check_case(case, ctx):
             ref = numpy.zeros((n, n))
             for i in range(n):
                 for j in range(n):
-                    if i != j:
+                    if i != j and list(map(float, g["pos"][i])) != list(map(float, g["pos"][j])):
                         ref[i, j] = orc.point_dipole_coupling_int(g["pos"][i], g["pos"][j], d[i], d[j], g["epsr"])
             scale = max(1e-9, float(numpy.max(numpy.abs(ref))))
             ctx.close("point-dipole/matrix", got, ref, rtol=1e-6, scale=scale, epsr=g["epsr"])
